@@ -28,8 +28,8 @@ BUDGET = {
     "thorough": dict(shards=16, examples=1500),
 }
 
-KINDS = ["lon", "lat", "conn", "grow", "shrink", "ulp", "swap", "lonlat", "extra_node", "extra_face", "format", "nongrid", "same", "copy", "copy_edit", "copy_edit"]
-NONTRIVIAL = {"lon", "lat", "conn", "swap", "extra_node", "extra_face", "grow", "shrink", "ulp", "copy_edit"}
+KINDS = ["lon", "lat", "conn", "grow", "shrink", "ulp", "swap", "lonlat", "extra_node", "extra_face", "format", "nongrid", "same", "copy", "copy_edit", "copy_edit", "resplit", "pad_column"]
+NONTRIVIAL = {"lon", "lat", "conn", "swap", "extra_node", "extra_face", "grow", "shrink", "ulp", "copy_edit", "resplit"}
 
 
 @st.composite
@@ -46,7 +46,7 @@ def _case(draw, tier):
         v["face"] = draw(st.integers(0, nf - 1))
         v["pos"] = draw(st.integers(0, 7))
         v["shift"] = draw(st.integers(1, max(1, nn - 1)))
-    elif kind in ("swap", "grow", "shrink"):
+    elif kind in ("swap", "grow", "shrink", "resplit"):
         v["face"] = draw(st.integers(0, nf - 1))
         v["pos"] = draw(st.integers(0, 7))
     elif kind == "ulp":
@@ -140,6 +140,21 @@ def _variant_mesh(mesh, v):
         big = [i for i, f in enumerate(m["faces"]) if len(f) > 3]
         if big:
             m["faces"][big[v["face"] % len(big)]].pop()
+    if k == "resplit":
+        # the same nodes in the same row-major order, cut into rows at another place: the last corner of one face
+        # becomes the first of the next (or the first of the next the last of this one)
+        nfa = len(m["faces"])
+        for off in range(nfa):
+            i = (v["face"] + off) % nfa
+            j = (i + 1) % nfa
+            if j != i + 1:
+                continue
+            if len(m["faces"][i]) >= 4:
+                m["faces"][j].insert(0, m["faces"][i].pop())
+                break
+            if len(m["faces"][j]) >= 4:
+                m["faces"][i].append(m["faces"][j].pop(0))
+                break
     if k == "extra_node":
         m["nodes"].append([12.25, -33.5])
     if k == "extra_face":
@@ -232,6 +247,13 @@ def run_case(case, ctx):
             warnings.simplefilter("ignore")
             g2 = ux.Grid(mk(mesh)._ds, source_grid_spec="UGRID")
         expect = False
+    elif k == "pad_column":
+        # the same faces in a table one column wider (all padding): whether such tables count as identical is not
+        # something the statement decides; only symmetry and the negation are judged
+        INT_DTYPE, FILL = build.consts()
+        nodes_ = np.asarray(mesh["nodes"], float)
+        g2 = ux.Grid.from_topology(nodes_[:, 0].copy(), nodes_[:, 1].copy(), build.padded_faces(mesh, width=W + 1), fill_value=FILL)
+        expect = None
     else:
         m2, expect = _variant_mesh(mesh, v)
         g2 = mk(m2)
@@ -250,7 +272,7 @@ def run_case(case, ctx):
         for q in case.get("history", {}).get("g2", []):
             # a table with one entry changed need not describe a proper mesh any more (repeated corners, faces with
             # an antipodal edge): only quantities that do not depend on the faces' geometry are derived on it
-            if k in ("conn", "grow", "shrink", "swap", "extra_face") and q in ("face_areas", "bounds", "face_lon"):
+            if k in ("conn", "grow", "shrink", "swap", "extra_face", "resplit") and q in ("face_areas", "bounds", "face_lon"):
                 continue
             getattr(g2, q)
     e12, e21 = (g1 == g2), (g2 == g1)
